@@ -22,9 +22,13 @@ CALLS = {}
 CALL_LOCK = threading.Lock()
 
 
-def _bump(name, seq):
+CALLS_EPS = {}  # node -> list of (eps, seq) as seen by the step function
+
+
+def _bump(name, seq, eps=0):
     with CALL_LOCK:
         CALLS.setdefault(name, []).append(int(seq))
+        CALLS_EPS.setdefault(name, []).append((int(eps), int(seq)))
 
 
 def make_probe_class():
@@ -78,7 +82,7 @@ def make_probe_class():
             s = (31 * ss.state.s + ss.params.w * (acc % M) + draw + seq) % M
             y = (7 * s + seq) % M
             if self.count_calls:
-                jax.debug.callback(_bump, self.name, seq, ordered=True)
+                jax.debug.callback(_bump, self.name, seq, jnp.asarray(ss.eps, dtype=jnp.int32), ordered=True)
             return ss.replace(rng=new_rng, state=PState(s=s.astype(jnp.int32))), POut(y=y.astype(jnp.int32))
 
     return Probe, PParams, PState, POut
